@@ -30,7 +30,11 @@ RULE = ("(1) one interval-arithmetic certificate (a Coq lemma |model expression 
         "estimator receives its options (Linear/Cubic rescale, Spline mindist/damping/force_coords, VectorSpline2D "
         "poisson/mindist/force_coords, Trend degree, CheckerBoard amplitude/region/w_east/w_north) in fixed equal shares through "
         "constructor arguments, set_params after a default or deliberately different construction, sklearn.base.clone of a "
-        "configured instance, or attribute assignment - the observed behaviour must follow the options in force at fit/predict time; (2) predict against jacobian x parameters exactly on dyadics for externally set and fitted parameters and "
+        "configured instance, or attribute assignment - the observed behaviour must follow the options in force at fit/predict time; "
+        "jacobian(dtype = default | float64 | float32) of Spline / VectorSpline2D / Trend in equal shares on metre-spaced "
+        "coordinates at offsets 0 .. 1e7 spacings (UTM-like): default and float64 bit-equal to the double-precision jacobian of "
+        "the coordinates translated to the origin, float32 within 2^-22 of it entry by entry (and certificates against the exact "
+        "kernel with + 2^-22 |entry|); (2) predict against jacobian x parameters exactly on dyadics for externally set and fitted parameters and "
         "1-D / 2-D / scalar-broadcast query shapes (Spline, VectorSpline2D, Trend); (3) Trend.jacobian columns against exact "
         "monomials in the documented order for degrees 0..6(8) and polynomial_power_combinations against the model (generator + "
         "stable sort) and the closed form; (4) jacobians of dyadically shifted coordinates bit-equal; (5) Linear/Cubic against "
@@ -129,7 +133,7 @@ class Cert:
             self.log = "observed value or tolerance is not finite"
 
 
-def spline_cert(e, n, fe, fn, md, obs, kind):
+def spline_cert(e, n, fe, fn, md, obs, kind, extra_tol=0.0, note=None):
     dx, dy = exact_diff(e, fe), exact_diff(n, fn)
     r = math.hypot(dx, dy) + md
     coincident = (e == fe and n == fn and md == 0)
@@ -139,7 +143,7 @@ def spline_cert(e, n, fe, fn, md, obs, kind):
         mdl = "0"
     else:
         # + one subnormal ulp: the absolute granularity of doubles (results that underflow to 0 for subnormal distances)
-        tol = 64 * U * (r + r * r * (1 + abs(math.log(r)))) + 5e-324
+        tol = 64 * U * (r + r * r * (1 + abs(math.log(r)))) + 5e-324 + extra_tol
         script = ("unfold spline_entry, spline_kernel. rewrite g_code_eq by (unfold dist; interval with (i_prec 90)). "
                   "unfold dist. interval with (i_prec 90).")
         mdl = fR(md)
@@ -148,21 +152,21 @@ def spline_cert(e, n, fe, fn, md, obs, kind):
              "print(repr(verde.Spline(mindist=%r).jacobian((np.array([%r]), np.array([%r])), (np.array([%r]), np.array([%r])))[0, 0]))"
              % (md, e, n, fe, fn))
     return Cert(stmt, script, {"kernel": "spline", "east": e, "north": n, "force_east": fe, "force_north": fn, "mindist": md,
-                               "distance": r}, {"entry": obs, "tol": tol}, kind, repro, nontrivial=not coincident)
+                               "distance": r, "note": note}, {"entry": obs, "tol": tol}, kind, repro, nontrivial=not coincident)
 
 
-def elastic_cert(which, e, n, fe, fn, md, nu, obs, kind):
+def elastic_cert(which, e, n, fe, fn, md, nu, obs, kind, extra_tol=0.0, note=None):
     dx, dy = exact_diff(e, fe), exact_diff(n, fn)
     d = math.hypot(dx, dy) + md
     q = {"ee": (dy / d) ** 2, "nn": (dx / d) ** 2, "ne": abs((dx / d) * (dy / d))}[which]
-    tol = 64 * U * (abs(3 - nu) * (1 + abs(math.log(d))) + abs(1 + nu) * q)
+    tol = 64 * U * (abs(3 - nu) * (1 + abs(math.log(d))) + abs(1 + nu) * q) + extra_tol
     stmt = "Rabs (g_%s (%s - %s) (%s - %s) %s %s - %s) <= %s" % (
         which, fR(e), fR(fe), fR(n), fR(fn), fR(md), fR(nu), fR(obs), fR(tol))
     script = "unfold g_%s, el_ln, dist. interval with (i_prec 90)." % which
     repro = ("import verde, numpy as np; J = verde.VectorSpline2D(poisson=%r, mindist=%r).jacobian((np.array([%r]), np.array([%r])), "
              "(np.array([%r]), np.array([%r]))); print(repr(J))  # [[ee, ne], [ne, nn]]" % (nu, md, e, n, fe, fn))
     return Cert(stmt, script, {"kernel": "elastic_" + which, "east": e, "north": n, "force_east": fe, "force_north": fn,
-                               "mindist": md, "poisson": nu, "distance": d}, {"entry": obs, "tol": tol}, kind, repro,
+                               "mindist": md, "poisson": nu, "distance": d, "note": note}, {"entry": obs, "tol": tol}, kind, repro,
                 nontrivial=not (which == "ne" and q == 0))
 
 
@@ -449,6 +453,121 @@ def checker_samples(vd, rnd, tier):
             certs.append(checker_cert(amp, region, we, wn, float(ge[c]), float(gn[r]), float(vals[r, c]),
                                       "cert-checkerboard-grid-" + CB_OPTIONS[i % 4], "grid(shape=(4, 5)).scalars[%d, %d]" % (r, c)))
     return certs
+
+
+# ---------------------------------------------------------------------------
+# requested output dtype x coordinate offsets (UTM-like coordinates, metre spacing)
+# ---------------------------------------------------------------------------
+DTYPES = [None, "float64", "float32"]
+# (east offset, north offset) in units of the spacing: 0 .. 1e7
+OFFSETS = [(0.0, 0.0), (1e3, -2e3), (5e5, 7.5e6), (-3.2e5, 4.1e6), (1e7, 1e7), (64.0, 1e5)]
+F32 = 2.0 ** -22
+
+
+def _jac(g, coords, forces, dtype):
+    """the PUBLIC jacobian with the requested dtype (None = the default)"""
+    with warnings.catch_warnings():
+        warnings.simplefilter("ignore")
+        if forces is None:
+            return g.jacobian(coords) if dtype is None else g.jacobian(coords, dtype=dtype)
+        return g.jacobian(coords, forces) if dtype is None else g.jacobian(coords, forces, dtype=dtype)
+
+
+def _utm_points(rnd, k, n, m):
+    """n data points and m forces on a metre-like lattice at the k-th offset (dyadic, differences exact in double)"""
+    spacing = [1.0, 0.25, 100.0, 1.0][k % 4]
+    oe, on = OFFSETS[(k // 3) % len(OFFSETS)]
+    pe = np.array([oe * spacing + spacing * rnd.randint(-40, 40) / 4 for _ in range(n)])
+    pn = np.array([on * spacing + spacing * rnd.randint(-40, 40) / 4 for _ in range(n)])
+    fe = np.array([oe * spacing + spacing * rnd.randint(-40, 40) / 4 for _ in range(m)])
+    fn = np.array([on * spacing + spacing * rnd.randint(-40, 40) / 4 for _ in range(m)])
+    fe[0], fn[0] = pe[0] + 10.5 * spacing, pn[0] - 3.25 * spacing      # a fixed oblique pair
+    return spacing, (oe * spacing, on * spacing), pe, pn, fe, fn
+
+
+def dtype_samples(vd, rnd, tier):
+    """certificates for entries of jacobian(..., dtype=...): for float32 the exact kernel of the DOUBLE coordinates must be met
+    within the double-precision budget + 2^-22 |entry| (a few single-precision ulps), never looser"""
+    certs = []
+    n = 18 if tier == "quick" else 90
+    for k in range(n):
+        dt = DTYPES[k % 3]
+        vector = bool((k // 3) % 2)
+        spacing, off, pe, pn, fe, fn = _utm_points(rnd, k // 2, 2, 1)
+        note = {"dtype": dt, "offset": list(off), "spacing": spacing}
+        if vector:
+            nu = [0.5, -1.0, 0.0, 1.0, 0.3][(k // 6) % 5]; md = [10e3, 1.0, 0.0][(k // 6) % 3]
+            g, _ = conf(vd.VectorSpline2D, {"poisson": nu, "mindist": md}, "cert-dtype-vector", decoy={"poisson": 0.123, "mindist": 77.0})
+            J = _jac(g, (pe, pn), (fe, fn), dt)
+            J64 = np.asarray(_jac(g, (pe, pn), (fe, fn), "float64"), dtype=float)
+            kind = "cert-dtype-%s-vector" % (dt or "default")
+            ok_dt = J.dtype == (np.float32 if dt == "float32" else np.float64)
+            for which, (r, c) in (("ee", (0, 0)), ("nn", (2, 1)), ("ne", (0, 1) if k % 2 else (2, 0))):
+                obs = float(J[r, c]) if ok_dt else float("nan")
+                certs.append(elastic_cert(which, pe[0], pn[0], fe[0], fn[0], float(md), nu, obs, kind,
+                                          extra_tol=F32 * abs(J64[r, c]) if dt == "float32" else 0.0, note=note))
+        else:
+            md = [0.0, 0.0, 0.5][(k // 6) % 3]
+            g, _ = conf_spline(vd, md, "cert-dtype-spline")
+            J = _jac(g, (pe, pn), (fe, fn), dt)
+            J64 = np.asarray(_jac(g, (pe, pn), (fe, fn), "float64"), dtype=float)
+            ok_dt = J.dtype == (np.float32 if dt == "float32" else np.float64)
+            for r in (0, 1):
+                obs = float(J[r, 0]) if ok_dt else float("nan")
+                certs.append(spline_cert(pe[r], pn[r], fe[0], fn[0], float(md), obs, "cert-dtype-%s-spline" % (dt or "default"),
+                                         extra_tol=F32 * abs(J64[r, 0]) if dt == "float32" else 0.0, note=note))
+    return certs
+
+
+def dtype_case(vd, rnd, which, idx):
+    """jacobian(dtype=...) at UTM-like offsets: default / float64 bit-equal to the double reference, float32 within 2^-22 of it
+    entry by entry; the same for coordinates and forces translated together (spline matrices)"""
+    dt = DTYPES[idx % 3]
+    n, m = rnd.randint(2, 5), rnd.randint(1, 4)
+    spacing, off, pe, pn, fe, fn = _utm_points(rnd, idx, n, m)
+    cases = []
+    if which == "trend":
+        N = [1, 2, 3, 0][(idx // 3) % 4]
+        g, how = conf(vd.Trend, {"degree": N}, "dtype-trend", decoy={"degree": N + 2}, required=("degree",))
+        J = _jac(g, (pe, pn), None, dt)
+        ref = np.asarray(_jac(vd.Trend(degree=N), (pe, pn), None, "float64"), dtype=float)
+        desc = {"gridder": "Trend", "degree": N}
+        forces = None
+    elif which == "vector":
+        nu = [0.5, -1.0, 0.0, 1.0][(idx // 3) % 4]; md = [10e3, 1.0, 25.0][(idx // 3) % 3]
+        g, how = conf(vd.VectorSpline2D, {"poisson": nu, "mindist": md}, "dtype-vector", decoy={"poisson": 0.123, "mindist": 77.0})
+        J = _jac(g, (pe, pn), (fe, fn), dt)
+        ref = np.asarray(_jac(vd.VectorSpline2D(poisson=nu, mindist=md), (pe - off[0], pn - off[1]), (fe - off[0], fn - off[1]), "float64"), dtype=float)
+        desc = {"gridder": "VectorSpline2D", "poisson": nu, "mindist": md}
+        forces = (fe, fn)
+    else:
+        md = [0.0, 0.0, 0.5][(idx // 3) % 3]
+        g, how = conf_spline(vd, md, "dtype-spline")
+        J = _jac(g, (pe, pn), (fe, fn), dt)
+        with warnings.catch_warnings():
+            warnings.simplefilter("ignore")
+            ref = np.asarray(_jac(vd.Spline(mindist=md if md else None), (pe - off[0], pn - off[1]), (fe - off[0], fn - off[1]), "float64"), dtype=float)
+        desc = {"gridder": "Spline", "mindist": md}
+        forces = (fe, fn)
+    # the reference for the spline matrices is the double-precision jacobian of the coordinates translated back to the origin
+    # (exact dyadic translation): checks the dtype handling and "depends on coordinate differences only" at once
+    want = np.float32 if dt == "float32" else np.float64
+    flags = bool(J.dtype == want and J.shape == ref.shape)
+    desc.update({"configured": how, "dtype": dt, "offset": list(off), "spacing": spacing, "east": pe.tolist(), "north": pn.tolist(),
+                 "force_east": None if forces is None else fe.tolist(), "force_north": None if forces is None else fn.tolist()})
+    kind = "jacobian-dtype-%s-%s" % (dt or "default", which)
+    J = np.asarray(J)
+    if not (_fin(J, ref) and J.shape == ref.shape):
+        term = "c03_flag false"
+    elif dt == "float32":
+        term = "c03_close32 %s %s %s" % (cmat(J), cmat(ref), cbool(flags))
+    else:
+        term = "c03_same %s %s %s" % (cmat(J), cmat(ref), cbool(flags))
+    err = float(np.max(np.abs(J.astype(float) - ref) / np.maximum(np.abs(ref), 1e-300))) if J.shape == ref.shape else None
+    repro = ("# %s.jacobian(coordinates%s, dtype=%r) for the listed input against the float64 jacobian of the coordinates minus the offset"
+             % (desc["gridder"], "" if forces is None else ", forces", dt))
+    cases.append(Case(desc, {"dtype": str(J.dtype), "max_relative_difference_to_float64_kernel": err}, term, repro, kind))
+    return cases
 
 
 # ---------------------------------------------------------------------------
@@ -777,7 +896,7 @@ def generate(tier, seed):
     rnd = random.Random(seed)
     quick = tier == "quick"
     _COUNT.clear()
-    certs = spline_samples(vd, rnd, tier) + elastic_samples(vd, rnd, tier) + checker_samples(vd, rnd, tier)
+    certs = spline_samples(vd, rnd, tier) + elastic_samples(vd, rnd, tier) + checker_samples(vd, rnd, tier) + dtype_samples(vd, rnd, tier)
     cases = cert_cases(certs, tier)
     npred = 12 if quick else 120
     for i in range(npred):
@@ -789,6 +908,9 @@ def generate(tier, seed):
         for N in range(0, 7 if quick else 9):
             cases += _guard(trend_jac_case, "trend-jacobian", vd, rnd, N, "trend-jacobian")
             cases += _guard(trend_predict_case, "trend-predict", vd, rnd, N, fitted=bool((N + rep) % 2), kind="trend-predict")
+    for i in range(18 if quick else 72):
+        for which in ("spline", "vector", "trend"):
+            cases += _guard(dtype_case, "jacobian-dtype-" + which, vd, rnd, which, i)
     for i in range(8 if quick else 80):
         k = "translation-vector" if i % 2 else "translation-spline"
         cases += _guard(translation_case, k, vd, rnd, vector=bool(i % 2), kind=k, idx=i)
